@@ -24,6 +24,9 @@ type Project struct {
 	NoRoot bool `json:"no_root,omitempty"`
 	// ViaPath: build through kit.NewJapi(path) instead of kit.NewJApiFromFile.
 	ViaPath bool `json:"via_path,omitempty"`
+	// RootSpelling: how the path of the root file is written when the project is built from disk:
+	// "" clean absolute path | "dot" dir/./root | "slashes" dir//root | "updown" dir/sub/../root.
+	RootSpelling string `json:"root_spelling,omitempty"`
 }
 
 func SingleFile(data []byte) *Project {
@@ -33,7 +36,7 @@ func SingleFile(data []byte) *Project {
 func (p *Project) RootBytes() []byte { return p.Files[p.Root] }
 
 func (p *Project) Clone() *Project {
-	q := &Project{Root: p.Root, Files: map[string][]byte{}, NoRoot: p.NoRoot, ViaPath: p.ViaPath}
+	q := &Project{Root: p.Root, Files: map[string][]byte{}, NoRoot: p.NoRoot, ViaPath: p.ViaPath, RootSpelling: p.RootSpelling}
 	for k, v := range p.Files {
 		q.Files[k] = append([]byte(nil), v...)
 	}
@@ -55,7 +58,7 @@ func (p *Project) Names() []string {
 // Hash is a stable digest of the project (used to count distinct cases).
 func (p *Project) Hash() string {
 	h := sha1.New()
-	fmt.Fprintf(h, "root=%s;noroot=%v;via=%v;ban=%s;", p.Root, p.NoRoot, p.ViaPath, strings.Join(p.Banned, ","))
+	fmt.Fprintf(h, "root=%s;noroot=%v;via=%v;ban=%s;sp=%s;", p.Root, p.NoRoot, p.ViaPath, strings.Join(p.Banned, ","), p.RootSpelling)
 	for _, n := range p.Names() {
 		fmt.Fprintf(h, "%s:%d:", n, len(p.Files[n]))
 		h.Write(p.Files[n])
